@@ -5,7 +5,7 @@ seeds are expected to be caught (except the ones documented as still missed), ne
 import glob, json, os, subprocess, sys, tempfile
 from concurrent.futures import ThreadPoolExecutor
 HERE = os.path.dirname(os.path.dirname(os.path.abspath(__file__)))
-EXPECTED_MISSED = {"C08", "C04c", "C04d", "C10e", "C06f", "C08f", "C14f"}
+EXPECTED_MISSED = {"C08", "C04c", "C04d", "C10e", "C06f", "C08f", "C14f", "C15f"}
 # deep restructurings of round 2 that still raise an alarm (documented limits, DESIGN App. C)
 EXPECTED_ALARM = {"MC04-n1", "MC07-n3", "MC11-n1", "MC11-n3", "MC18-n1"}
 
